@@ -80,17 +80,22 @@ func keyWithBraces() *rapid.Generator[string] {
 
 func c15Random(t *rapid.T) {
 	k := keyWithBraces().Draw(t, "key")
+	if rapid.IntRange(0, 39).Draw(t, "longKey") == 23 {
+		// keys and hash tags beyond 65535 bytes (a 16-bit length would wrap)
+		pad := strings.Repeat("x", rapid.SampledFrom([]int{65535, 65536, 65537, 70001}).Draw(t, "padLen"))
+		k = rapid.SampledFrom([]string{pad, "{" + pad + "}tail", "a{" + pad + "b}c", pad + k}).Draw(t, "longShape")
+	}
 	if c15CheckKey(t, k) {
 		return
 	}
 	// the CRC16 copies agree with the reference on every string
 	want := ref.CRC16([]byte(k))
 	if got := utils.VerifCrc16(k); got != want {
-		violation(t, "C15", "crc16:common", "common.crc16(%q)=%#x want %#x", k, got, want)
+		violation(t, "C15", "crc16:common", "common.crc16(%.60q... %d bytes)=%#x want %#x", k, len(k), got, want)
 		return
 	}
 	if got := latencymonitor.VerifCrc16(k); got != want {
-		violation(t, "C15", "crc16:latencymonitor", "latencymonitor.crc16(%q)=%#x want %#x", k, got, want)
+		violation(t, "C15", "crc16:latencymonitor", "latencymonitor.crc16(%.60q... %d bytes)=%#x want %#x", k, len(k), got, want)
 		return
 	}
 	if braceCount(k) == 0 {
